@@ -238,7 +238,9 @@ func (t C02Tool) Result() (*mcp.CallToolResult, error) {
 	if t.Err != nil {
 		return nil, errors.New(t.Err.Expand())
 	}
-	res := &mcp.CallToolResult{IsError: t.IsError, Content: []mcp.Content{}}
+	// a handler that has no content items returns the struct literal without a Content slice (the outcome is in the error
+	// flag, the structured content or _meta alone)
+	res := &mcp.CallToolResult{IsError: t.IsError}
 	for _, c := range t.Content {
 		res.Content = append(res.Content, c.Build())
 	}
